@@ -28,19 +28,22 @@ func inconclusive(format string, a ...interface{}) verdict {
 
 // analysis is derived once per run and shared by the oracles.
 type analysis struct {
-	rr       *runRec
-	sc       *Scenario
-	frames   []Frame
-	begins   []int64 // ts of render.begin per cycle
-	ends     []int64
-	addRet   []int64 // ts at which Add(bar) returned (0 = never added)
-	addInv   []int64
-	addOrder []int // creation order: bar indices in the order of the add hook
-	first    []int // first frame index showing the bar, -1
-	last     []int
-	count    []int // number of frames showing it
-	errCycle bool  // some render returned an error
-	harness  []string
+	rr        *runRec
+	sc        *Scenario
+	frames    []Frame
+	begins    []int64 // ts of render.begin per cycle
+	ends      []int64
+	addRet    []int64 // ts at which Add(bar) returned (0 = never added)
+	addInv    []int64
+	addOrder  []int // creation order: bar indices in the order of the add hook
+	first     []int // first frame index showing the bar, -1
+	last      []int
+	count     []int // number of frames showing it
+	errCycle  bool  // some render returned an error
+	focus     int   // frame index the witness should centre on (0 = the end)
+	kindCache map[int]string
+	popAt     map[[2]int]bool
+	harness   []string
 }
 
 func analyse(rr *runRec) *analysis {
@@ -144,11 +147,17 @@ func (a *analysis) commonInconclusive() *verdict {
 func (a *analysis) tail() string {
 	var sb strings.Builder
 	n := len(a.frames)
-	from := n - 6
+	from, to := n-6, n
+	if a.focus > 0 {
+		from, to = a.focus-4, a.focus+2
+		if to > n {
+			to = n
+		}
+	}
 	if from < 0 {
 		from = 0
 	}
-	for _, f := range a.frames[from:] {
+	for _, f := range a.frames[from:to] {
 		fmt.Fprintf(&sb, "--- frame %d (cycle %d, up %d)\n%s", f.Idx, f.Cycle, f.Up, stripSGR(strings.ReplaceAll(string(f.Raw), "\x1b", "^[")))
 	}
 	return sb.String()
@@ -395,9 +404,9 @@ func (a *analysis) clippedPossible() bool {
 	}
 	h := a.sc.Width
 	if a.sc.Mode == "pty" {
-		h = a.sc.PtyRows
+		h = a.sc.PtyRows - 1 // the cursor line
 	}
-	return rows >= h
+	return rows > h
 }
 
 func (a *analysis) leavesInLastFrame(id int) bool {
@@ -405,9 +414,10 @@ func (a *analysis) leavesInLastFrame(id int) bool {
 	return a.sc.Pop && !spec.NoPop || spec.Rm || spec.Finish == "abortdrop" || a.hasSuccessor(id)
 }
 
+// hasSuccessor: some bar queued after id was actually added.
 func (a *analysis) hasSuccessor(id int) bool {
-	for _, b := range a.sc.Bars {
-		if b.After == id {
+	for si, b := range a.sc.Bars {
+		if b.After == id && a.rr.bar(si) != nil {
 			return true
 		}
 	}
@@ -426,6 +436,7 @@ func (a *analysis) framesUsable() *verdict {
 	}
 	for _, f := range a.frames {
 		if len(f.Junk) > 0 {
+			a.focus = f.Idx
 			v := violated("junk-lines", "frame %d contains lines that are neither text nor bar rows: %q", f.Idx, f.Junk)
 			v.Witness = a.tail()
 			return &v
@@ -434,14 +445,62 @@ func (a *analysis) framesUsable() *verdict {
 	return nil
 }
 
-// leavingKind: "" = stays; otherwise why the bar may leave the display.
+// leavingKind: "" = stays; otherwise why the bar may leave the display, in the
+// library's documented order of precedence: a bar queued behind it takes its
+// place (if it was queued by the time the bar was flushed in its second
+// terminal frame); else pop mode retires it (unless no-pop); else removal on
+// completion / Abort(drop); a bar queued later still replaces it afterwards.
 func (a *analysis) leavingKind(id int) string {
+	if k, ok := a.kindCache[id]; ok {
+		return k
+	}
+	k := a.leavingKindUncached(id)
+	if a.kindCache == nil {
+		a.kindCache = map[int]string{}
+	}
+	a.kindCache[id] = k
+	return k
+}
+
+func (a *analysis) leavingKindUncached(id int) string {
 	spec := a.sc.Bars[id]
-	if a.hasSuccessor(id) {
+	var t1 int64 // when flush met the bar's second terminal frame
+	addT := map[int]int64{}
+	for _, h := range a.hooks() {
+		switch h.P {
+		case hpFlushBar:
+			if h.Bar == id && h.A == 1 && t1 == 0 {
+				t1 = h.T
+			}
+		case hpAdd:
+			if h.Bar >= 0 {
+				addT[h.Bar] = h.T
+			}
+		}
+	}
+	succBefore, succLate := false, false
+	for si, b := range a.sc.Bars {
+		if b.After != id {
+			continue
+		}
+		t, added := addT[si]
+		if !added {
+			continue
+		}
+		if t1 == 0 || t < t1 {
+			succBefore = true
+		} else {
+			succLate = true
+		}
+	}
+	if succBefore {
 		return "replaced"
 	}
 	if a.sc.Pop && !spec.NoPop {
 		return "popped"
+	}
+	if succLate {
+		return "replaced" // handed over at its next frame after the late Add
 	}
 	if spec.Rm {
 		return "removed" // when completed
